@@ -126,18 +126,20 @@ theorem foreign_ids_dont_touch (mr iv : Nat) {s s' : State} (hr : Reachable (cfg
   have hfn : ∀ cid, n.fn = .real cid → cid ≠ i := fun cid h => by
     have := hp.fn_target nid n cid hn h; omega
   rcases ha with rfl | ⟨o, rfl⟩
-  · simp only [step, stepNrun, hn] at hs
-    split at hs
-    · cases hs; rfl
-    · next cid _ hf =>
+  · cases hfn' : n.fn with
+    | nop =>
+      simp only [step, stepNrun, hn, hfn'] at hs
+      split at hs <;> (try (simp at hs)) <;> (try subst hs) <;> (first | rfl | simp_all [setNotif])
+    | real cid =>
+      have hne' : i ≠ cid := Ne.symm (hfn cid hfn')
+      simp only [step, stepNrun, hn, hfn', casStep] at hs
       split at hs
-      · simp at hs
-      · split at hs <;> cases hs <;> simp [setNotif, setCall, hfn cid hf |>.symm]
-    · next cid _ hf =>
-      split at hs
-      · simp at hs
-      · split at hs <;> cases hs <;> simp [setNotif, setCall, hfn cid hf |>.symm]
-    · simp at hs
+      all_goals (try (split at hs))
+      all_goals (try (split at hs))
+      all_goals (try (split at hs))
+      all_goals (try (simp at hs))
+      all_goals (try subst hs)
+      all_goals (first | rfl | (simp [setNotif, setCall] <;> grind))
   · simp only [step, stepNwrite, hn] at hs
     split at hs
     · next cid _ hf =>
@@ -155,7 +157,7 @@ def cfgNoGuard : Cfg := { Cfg.standard 2 3 with guard := false, recheckAck := fa
 only then the fetched handler runs and decodes into the output. -/
 def d13Trace : List Action :=
   [.start 1 1 7, .sret 1 .ok, .nstart 0 1 false 100, .cancel 1, .loopSel 1 .ctx, .waitSel 1 .ctx, .dret 1 .ok,
-   .nrun 0, .nrun 0, .nwrite 0 .ok]
+   .nrun 0, .nrun 0, .nrun 0, .nwrite 0 .ok]
 
 def retAndWrites (s : Option State) : Option (Option Ret × List Nat) :=
   s.bind (fun s => (s.calls 1).map (fun c => (c.ret, c.writes)))
@@ -170,13 +172,13 @@ theorem d13_counterexample :
 /-- With the guard the same schedule is not possible: after `Do` returned, the notifier's CAS fails
 ("handler already called", it returns), so neither its second step nor `nwrite` is enabled. -/
 theorem d13_schedule_repaired :
-    retAndWrites (run (cfg 2 3) init (d13Trace.take 8)) = some (some .ctxErr, []) ∧
-    (run (cfg 2 3) init (d13Trace.take 9)).isNone = true := by
+    retAndWrites (run (cfg 2 3) init (d13Trace.take 9)) = some (some .ctxErr, []) ∧
+    (run (cfg 2 3) init (d13Trace.take 10)).isNone = true := by
   decide
 
 /-- Non-vacuity: a reachable state in which a call has returned its own result. -/
 example : ∃ s, Reachable (cfg 2 3) s ∧ ∃ c, s.calls 1 = some c ∧ c.ret = some .ok ∧ c.writes = [100] := by
-  refine ⟨_, ⟨[.start 1 1 7, .sret 1 .ok, .nstart 0 1 false 100, .nrun 0, .nrun 0, .nwrite 0 .ok,
+  refine ⟨_, ⟨[.start 1 1 7, .sret 1 .ok, .nstart 0 1 false 100, .nrun 0, .nrun 0, .nrun 0, .nwrite 0 .ok,
     .loopSel 1 .ctx, .waitSel 1 .done, .gpass 1], rfl⟩, ?_⟩
   exact ⟨_, rfl, by decide, by decide⟩
 
